@@ -35,6 +35,10 @@ the OUTER packet; starts are Outer(), Outer(tag=.., inner=Inner(..)) and Outer.u
 modified).  Oracle: outer.pack() == tag/n byte + reference encoding of each inner from what its attributes
 currently read as; no attribute of an inner reads differently after the outer pack.  The inner packet is never
 packed directly in Part 3 (a direct inner.pack() could refresh state the nested path must refresh itself).
+Part 3 also declares outers whose Ref prototype is an INSTANCE: Ref(Inner(described=k consistent, tracked=v)),
+Ref(Inner(described=k inconsistent, tracked=v)) and Ref(Inner(tracked=v)), single and repeated.  Model: the inner of
+a default-constructed outer is a copy of the prototype, i.e. explicit exactly when the prototype was built with the
+described keyword; an inner produced by Outer.unpack(raw) ALWAYS starts automatic whatever the prototype says.
 """
 import itertools
 import os
@@ -56,6 +60,8 @@ REQUIRED = (
     "nested_histories", "nested_packs_compared", "nested_generic_inner_packs", "nested_generated_inner_packs",
     "nested_generic_inner_in_generated_outer_packs", "nested_packs_after_inner_change", "nested_seq_packs_compared",
     "nested_packs_after_outer_unpack", "nested_reads_compared",
+    "nested_instance_prototype_histories", "nested_unpacked_inner_with_explicit_prototype",
+    "nested_default_inner_explicit_from_prototype", "nested_unpacked_explicit_prototype_packs_after_tracked_change",
 )
 RULE = {
     "quick": "4 declarations (AutoLength over Data sized by the described field; the same with the described Int(2) inside "
@@ -66,12 +72,14 @@ RULE = {
              "operation (observed mode); Part 2: every sequence of length 1..3 over 14 operations on two live packets x 3 start "
              "pairs x 12 classes; Part 3 (nested): 12 inner classes x outer option sets {generic, default} x {Ref(Inner): every "
              "sequence of length 1..3 over 7 operations, Ref(Inner).repeated(n) with two inners: every sequence of length 1..2 "
-             "over 13 operations} x 3 starts (default/ctor, ctor with explicit inner, outer unpack), PK packs the outer packet. "
+             "over 13 operations} x 3 starts (default/ctor, ctor with explicit inner, outer unpack), PK packs the outer packet; "
+             "the same two outer shapes with an INSTANCE prototype (described keyword consistent / inconsistent / tracked keyword "
+             "only) x 2 starts (default-constructed or constructed outer, unpacked outer), same lengths. "
              "Exhaustive for these bounds. A history is non-trivial when start+operations contain at least "
              "one assignment/deletion/keyword/unpack affecting the described or tracked field (i.e. not only reads and packs of "
              "a plain C()); distinct = distinct (class, start, mode, operation sequence).",
     "thorough": "as quick with every operation sequence of length 1..6 (pure) and of length 5 (observed), sharded by "
-                "(class, start, mode, first operation); Part 2 with sequences of length 1..4; Part 3 with sequences of length 1..4 for both outer shapes. "
+                "(class, start, mode, first operation); Part 2 with sequences of length 1..4; Part 3 with sequences of length 1..4 for both outer shapes (instance-prototype outers: Ref 1..4, repeated Ref 1..3). "
                 "Exhaustive for these bounds. "
                 "Non-trivial as in quick; distinct = distinct (class, start, mode, first<=4 operations (<=3 in Part 2)) groups (the exact number "
                 "of executed histories is in counters histories_pure / histories_observed / two_packet_histories).",
@@ -88,6 +96,8 @@ ASSUMPTIONS = [
     "default byte order is big endian; pad/kind of the vectorised variant are plain Int(1) with default 0",
     "nested part: Ref(Inner) packs the referenced packet in place (outer bytes = Int(1) byte + inner encodings); Outer() holds a "
     "fresh default Inner; objects passed by keyword are the ones held; n of OuterSeq is a plain Int set by the harness",
+    "Ref(Inner(described=k, ...)): the default inner of Outer() is a copy of that prototype and so counts as explicitly assigned "
+    "(constructor keyword); sub-packets produced by unpack were never assigned and start automatic",
 ]
 
 HEADER = ("from bisturi.packet import Packet\n"
@@ -482,12 +492,14 @@ NESTED_ALPHABET = {
 
 
 class NestedCtx:
-    def __init__(self, ictx, ocls, kind, ooptname, source):
+    def __init__(self, ictx, ocls, kind, ooptname, source, proto="class", proto_kw=None):
         self.ictx = ictx
         self.ocls = ocls
         self.kind = kind
         self.ooptname = ooptname
         self.source = source
+        self.proto = proto              # "class" | "cons" | "incons" | "tracked"
+        self.proto_kw = proto_kw        # keywords the prototype instance was built with (None for Ref(Inner))
         self.prefix_name = "tag" if kind == "ref" else "n"
         self.holder = "inner" if kind == "ref" else "inners"
 
@@ -496,14 +508,31 @@ def nested_module_source(variant, optname, optsrc):
     iname = "C17N_%s_%s" % (variant["name"], optname)
     src = NHEADER + "class %s(Packet):\n    __bisturi__ = %s\n%s" % (iname, optsrc, variant["body"])
     outers = []
-    for ooptname, ooptsrc in OUTER_OPTSETS:
-        rname = "%s_Ref_%s" % (iname, ooptname)
-        sname = "%s_Seq_%s" % (iname, ooptname)
-        src += "\nclass %s(Packet):\n    __bisturi__ = %s\n    tag = Int(1)\n    inner = Ref(%s)\n" % (rname, ooptsrc, iname)
-        src += "\nclass %s(Packet):\n    __bisturi__ = %s\n    n = Int(1)\n    inners = Ref(%s).repeated(n)\n" % (sname, ooptsrc, iname)
-        outers.append((rname, "ref", ooptname))
-        outers.append((sname, "seq", ooptname))
+    for proto, kw in prototype_keywords(variant):
+        if kw is None:
+            expr, tagp = iname, ""
+        else:
+            expr = "%s(%s)" % (iname, ", ".join("%s=%r" % (k, x) for k, x in kw.items()))
+            tagp = "_P" + proto
+        for ooptname, ooptsrc in OUTER_OPTSETS:
+            rname = "%s_Ref%s_%s" % (iname, tagp, ooptname)
+            sname = "%s_Seq%s_%s" % (iname, tagp, ooptname)
+            src += "\nclass %s(Packet):\n    __bisturi__ = %s\n    tag = Int(1)\n    inner = Ref(%s)\n" % (rname, ooptsrc, expr)
+            src += "\nclass %s(Packet):\n    __bisturi__ = %s\n    n = Int(1)\n    inners = Ref(%s).repeated(n)\n" % (sname, ooptsrc, expr)
+            outers.append((rname, "ref", ooptname, proto, kw))
+            outers.append((sname, "seq", ooptname, proto, kw))
     return iname, outers, src
+
+
+def prototype_keywords(v):
+    d, t, f = v["described"], v["tracked"], v["f"]
+    tv0 = v["tv"][0]
+    return [
+        ("class", None),
+        ("cons", {d: f(len(tv0)), t: tv0}),
+        ("incons", {d: v["k_incons"], t: tv0}),
+        ("tracked", {t: tv0}),
+    ]
 
 
 def define_nested_classes(run, scratch, count=True):
@@ -518,13 +547,13 @@ def define_nested_classes(run, scratch, count=True):
             ictx = Ctx(icls, v, optname, src)
             if (icls.pack_impl is Packet.pack_impl) != (optname == "generic"):
                 run.inconclusive_because("nested inner %s: pack code path does not match option set %r" % (iname, optname))
-            for oname, kind, ooptname in outers:
+            for oname, kind, ooptname, proto, kw in outers:
                 ocls = getattr(module, oname)
                 if (ocls.pack_impl is Packet.pack_impl) != (ooptname == "generic"):
                     run.inconclusive_because("nested outer %s: pack code path does not match option set %r" % (oname, ooptname))
-                out.append(NestedCtx(ictx, ocls, kind, ooptname, src))
+                out.append(NestedCtx(ictx, ocls, kind, ooptname, src, proto, kw))
                 if count:
-                    run.cover("nested_classes", "%s inner=%s outer=%s/%s" % (v["name"], optname, kind, ooptname))
+                    run.cover("nested_classes", "%s inner=%s outer=%s/%s prototype=%s" % (v["name"], optname, kind, ooptname, proto))
     return out
 
 
@@ -535,6 +564,20 @@ def nested_starts(nctx):
     d, t = v["described"], v["tracked"]
     tv0, tv1 = v["tv"]
     raws = v["raws"]
+    if nctx.proto_kw is not None:
+        # instance prototype: "proto" records the keywords the default inner is a copy of (model input)
+        if nctx.kind == "ref":
+            r = raws[0]
+            return [
+                {"how": "default", "proto": dict(nctx.proto_kw)},
+                {"how": "unpack", "raw": b"\x05" + r[0], "prefix": 5, "inners": [[r[1], r[2]]], "proto": dict(nctx.proto_kw)},
+            ]
+        ra, rb = raws[0], raws[1]
+        return [
+            {"how": "ctor", "prefix": 2, "inners": [{}, {t: tv1}], "proto": dict(nctx.proto_kw)},
+            {"how": "unpack", "raw": b"\x02" + ra[0] + rb[0], "prefix": 2, "inners": [[ra[1], ra[2]], [rb[1], rb[2]]],
+             "proto": dict(nctx.proto_kw)},
+        ]
     if nctx.kind == "ref":
         r = raws[0]
         return [
@@ -561,7 +604,10 @@ def execute_nested(nctx, start, ops, st):
         if how == "default":
             outer = nctx.ocls()
             prefix = 0
-            md = [[False, None, _fresh(v["default"]), {o: 0 for o in ictx.others}, False, None]]
+            kw = start.get("proto") or {}
+            md = [[dname in kw, kw.get(dname), _fresh(kw.get(tname, v["default"])), {o: 0 for o in ictx.others}, False, None]]
+            if dname in kw:
+                st.add("nested_default_inner_explicit_from_prototype")
         elif how == "ctor":
             inners = [ictx.cls(**{k: _fresh(x) for k, x in kw.items()}) for kw in start["inners"]]
             prefix = start["prefix"]
@@ -584,6 +630,10 @@ def execute_nested(nctx, start, ops, st):
                 {"step": -1, "got": [type(p).__name__ for p in pk], "want": len(md)})
     unpacked = how == "unpack"
     generic_inner = ictx.optname == "generic"
+    unpacked_explicit_proto = unpacked and dname in (start.get("proto") or {})
+    if unpacked_explicit_proto:
+        st.add("nested_unpacked_inner_with_explicit_prototype", len(pk))
+    tchanged = [False]
 
     def visible(m):
         return m[1] if m[0] else f(len(m[2]))
@@ -615,6 +665,8 @@ def execute_nested(nctx, start, ops, st):
                 st.add("nested_packs_after_inner_change")
                 if unpacked:
                     st.add("nested_packs_after_outer_unpack")
+            if unpacked_explicit_proto and tchanged[0]:
+                st.add("nested_unpacked_explicit_prototype_packs_after_tracked_change")
             if b != want:
                 return ("outer pack() bytes differ from prefix byte + reference encoding of what the inner attributes read"
                         + (" (second consecutive pack)" if attempt else ""),
@@ -659,6 +711,7 @@ def execute_nested(nctx, start, ops, st):
                     setattr(p, tname, _fresh(val))
                     m[2] = _fresh(val)
                     m[4] = True
+                    tchanged[0] = True
                 elif op == "D0" or op == "D1":
                     val = ictx.kv[0 if op == "D0" else 1]
                     setattr(p, dname, val)
@@ -722,6 +775,7 @@ def _nested_witness(nctx, start, ops, detail):
     ictx = nctx.ictx
     w = {"declaration": nctx.source, "nested": True, "inner_class": ictx.cls.__name__, "outer_class": nctx.ocls.__name__,
          "outer_kind": nctx.kind, "outer_options": nctx.ooptname, "variant": ictx.v["name"], "options": ictx.optname,
+         "ref_prototype": nctx.proto, "ref_prototype_keywords": nctx.proto_kw,
          "start": start, "ops": [list(o) for o in ops], "mode": "pure",
          "op_values": {"T0": ictx.tv[0], "T1": ictx.tv[1], "D0": ictx.kv[0], "D1": ictx.kv[1]},
          "described": ictx.dname, "tracked": ictx.tname,
@@ -737,7 +791,8 @@ def run(run):
     L = 4 if quick else 6
     LOBS = 3 if quick else 5          # length of the observed-mode histories
     L2 = 3 if quick else 4
-    L3 = {"ref": 3 if quick else 4, "seq": 2 if quick else 4}     # nested part
+    L3 = {"ref": 3 if quick else 4, "seq": 2 if quick else 4}     # nested part, Ref(Inner)
+    L3I = {"ref": 3 if quick else 4, "seq": 2 if quick else 3}    # nested part, Ref(Inner(...)) instance prototypes
     budget = 150.0 if quick else 560.0
     t0 = time.time()
     scratch = common.scratch_dir("bvf_c17_")
@@ -760,7 +815,7 @@ def run(run):
                     jobs.append((2, ci, si, "pure", fo))
 
         for ni, nctx in enumerate(nctxs):
-            for si in range(3):
+            for si in range(len(nested_starts(nctx))):
                 for fo in range(len(NESTED_ALPHABET[nctx.kind])):
                     jobs.append((3, ni, si, "pure", fo))
 
@@ -780,10 +835,10 @@ def run(run):
                 keybase = "3|%s|%d|" % (nctx.ocls.__name__, si)
                 run.cover("nested_starts", "%s/%s: %s" % (nctx.ictx.v["name"], nctx.kind, start))
                 n_exec = 0
-                for length in range(1, L3[nctx.kind] + 1):
+                for length in range(1, (L3 if nctx.proto_kw is None else L3I)[nctx.kind] + 1):
                     for rest in itertools.product(alphabet, repeat=length - 1):
                         ops = (first,) + rest
-                        nt = start["how"] != "default" or any(op in STATE_CHANGING for _, op in ops)
+                        nt = start["how"] != "default" or bool(start.get("proto")) or any(op in STATE_CHANGING for _, op in ops)
                         if nt:
                             run.case(key=keybase + ",".join("%d%s" % o for o in ops[:3]), nontrivial=True)
                         else:
@@ -806,6 +861,9 @@ def run(run):
                         stop = True
                         break
                 run.count("nested_histories", n_exec)
+                if nctx.proto_kw is not None:
+                    run.count("nested_instance_prototype_histories", n_exec)
+                    run.count("nested_instance_prototype_histories_%s" % nctx.proto, n_exec)
                 run.count("nested_histories_%s_outer_%s" % (nctx.kind, nctx.ooptname), n_exec)
                 continue
             ctx = ctxs[ci]
@@ -859,6 +917,7 @@ def run(run):
             run.extra["observed_mode_history_length"] = LOBS
             run.extra["max_two_packet_history_length"] = L2
             run.extra["max_nested_history_length"] = dict(L3)
+            run.extra["max_nested_history_length_instance_prototype"] = dict(L3I)
             run.extra["operation_alphabet"] = list(OPS)
             if samples == 0 and ctxs:
                 ctx = ctxs[1]
@@ -890,7 +949,8 @@ def replay(run, rec):
         if w.get("nested"):
             variant = [v for v in VARIANTS if v["name"] == w["variant"]][0]
             ictx = Ctx(getattr(module, w["inner_class"]), variant, w["options"], w["declaration"])
-            nctx = NestedCtx(ictx, getattr(module, w["outer_class"]), w["outer_kind"], w["outer_options"], w["declaration"])
+            nctx = NestedCtx(ictx, getattr(module, w["outer_class"]), w["outer_kind"], w["outer_options"], w["declaration"],
+                             w.get("ref_prototype", "class"), w.get("ref_prototype_keywords"))
             ops = tuple((int(i), str(op)) for i, op in w["ops"])
             st = Stats()
             run.case(key="replay", nontrivial=True)
